@@ -139,11 +139,37 @@ def observe(recipe, orders):
                                                     col_of(d2) == col_of(data))
                     ent["recast_same"] = outcome(recast)
             else:
-                ent[mode] = {"raises": out[1]}
+                ent[mode] = {"raises": out[1], "site": locate_raise(ts, s, mode == "infer")}
         trav.append(ent)
     res["trav"] = trav
     res["mutated"] = mutated
     return res
+
+
+def locate_raise(ts, s, infer):
+    """replay the traversal by hand on the real graph to name the call that raises"""
+    g = ts.relation_graph if infer else ts.base_graph
+    node = ts.root_node
+    data = s
+    for _ in range(64):
+        nxt = None
+        for succ in g.successors(node):
+            rel = g[node][succ]["relationship"]
+            try:
+                ok = rel.is_relation(data, {})
+            except BaseException as e:  # noqa
+                return "guard %s->%s:%s" % (node, succ, type(e).__name__)
+            if ok:
+                try:
+                    data = rel.transform(data, {})
+                except BaseException as e:  # noqa
+                    return "transform %s->%s:%s" % (node, succ, type(e).__name__)
+                nxt = succ
+                break
+        if nxt is None:
+            return "not-reproduced"
+        node = nxt
+    return "not-reproduced"
 
 
 def _worker(args):
@@ -253,6 +279,11 @@ def collect(tier, seed, n, stream="pandas", gen=None, orders=None, nproc=16):
     rng = rng_for(seed, stream)
     gen = gen or G.gen_column
     recipes = [gen(rng) for _ in range(n)]
+    if stream == "pandas":
+        # minimised past failures and the witnesses of the known findings run first
+        cp = os.path.join(os.path.dirname(os.path.abspath(__file__)), "..", "corpus", "pandas.json")
+        if os.path.exists(cp):
+            recipes = json.load(open(cp)) + recipes
     orders = orders or standard_orders(rng, tier)
     chunks = [recipes[i::nproc] for i in range(nproc)]
     with mp.Pool(nproc) as pool:
@@ -277,8 +308,11 @@ def run(tier, seed, n=None):
     n = n or (1200 if tier == "quick" else 30000)
     obs, orders = collect(tier, seed, n)
     answers = model_answers(obs, orders)
+    import oracles_pandas
     disagreements = []
-    dist = {"streams": {}, "out_of_scope": 0, "crash": 0, "paths": {}, "errors": {}, "assumption_violations": 0}
+    failures = []
+    dist = {"streams": {}, "out_of_scope": 0, "crash": 0, "paths": {}, "errors": {}, "assumption_violations": 0,
+            "oracle_failures": {}}
     nontriv = set()
     for i, o in enumerate(obs):
         st = o["recipe"].get("stream", "?")
@@ -296,6 +330,13 @@ def run(tier, seed, n=None):
         d = compare(o, answers[i])
         if d:
             disagreements.append({"kind": "pandas", "recipe": o["recipe"], "diffs": d[:4]})
+        for f in oracles_pandas.oracle_failures(o, orders, col_obs_equiv):
+            # a failure can only be a *known* finding where the model (which mirrors the known defects) agrees
+            # with the code on this very input
+            f["known_eligible"] = not d
+            failures.append(f)
+            k = f["property"] + " " + f["signature"]
+            dist["oracle_failures"][k] = dist["oracle_failures"].get(k, 0) + 1
         p = o["trav"][1]["infer"]
         if "path" in p:
             key = "/".join(p["path"])
@@ -309,8 +350,8 @@ def run(tier, seed, n=None):
             "rule": "generated pandas columns (string families, numeric/nullable dtypes, temporal, object homogeneous/mixed, "
                     "categorical; nulls in every position; 5 typeset orders); non-trivial = distinct abstract columns whose "
                     "inference path has >= 2 nodes or that raise",
-            "samples": [o["recipe"] for o in obs[:3]], "disagreements": disagreements, "oracle_failures": [],
-            "distribution": dist, "obs": obs}
+            "samples": [o["recipe"] for o in obs[:3]], "disagreements": disagreements, "oracle_failures": failures,
+            "distribution": dist}
 
 
 if __name__ == "__main__":
